@@ -58,6 +58,10 @@ class SubAssoc(object):
 
     def release(self):
         self.lab.sub_log.append('release')
+        if getattr(self.lab, 'release_raises', False):
+            # a destination that confirms the release later than the time-out: the real release() raises
+            from pynetdicom2 import exceptions
+            raise exceptions.DCMTimeoutError()
 
     def abort(self):
         self.lab.sub_log.append('abort')
@@ -106,6 +110,8 @@ class LabAE(object):
     def on_receive_store(self, context, ds):
         from pynetdicom2 import statuses, dimsemessages
         data = ds.read() if hasattr(ds, 'read') else ds
+        if hasattr(ds, 'seek'):
+            ds.seek(0)                      # leave the file as it was handed over
         return statuses.Status(self._act('store', context, data).status, dimsemessages.CStoreRSPMessage)
 
     def on_receive_find(self, context, ds):
